@@ -20,7 +20,7 @@
     rounding (the real-number theorem does not cover objectives that are flat in doubles near the minimiser); termination of
     the bracketing loop (no cap in the source; Brent's ITMAX exit is [Exit]). *)
 From Coq Require Import ZArith List Reals.
-From LP Require Import Num NumR OrdLaws C11_Model C11_Proofs C11_Proofs_Hist C11_Proofs_NM C11_Proofs_Conv C11_Proofs_Range C11_Proofs_Trace.
+From LP Require Import Num NumR OrdLaws C11_Model C11_Model2 C11_Proofs C11_Proofs_Hist C11_Proofs_NM C11_Proofs_Conv C11_Proofs_Range C11_Proofs_Trace C11_Proofs_Box C11_Proofs_Psum Gen_C11_Formulas C11_GenTie.
 Import ListNotations.
 
 Section Abstract.
@@ -338,3 +338,116 @@ Theorem C11_find_maximum_best_of_brent_points (f : R -> R) xl xr tol xm tr : fin
   exists lb lm, tr = lb ++ lm /\ In xm lm /\ (forall p, In p lm -> f p <= f xm) /\ (1 <= length lm <= 100)%nat.
 Proof. exact (find_maximum_best f xl xr tol xm tr). Qed.
 Print Assumptions C11_find_maximum_best_of_brent_points.
+
+(** ** Seventh pass *)
+
+(** Brent never leaves its bracket - over the reals, for EVERY objective (multimodal, discontinuous, ...), every tolerance >= 0:
+    on a bracket whose middle abscissa lies between the outer two, the returned point and every point Brent::Minimize evaluates
+    lie in [min(ax,cx), max(ax,cx)] (the parabolic step is accepted only strictly inside (a,b), the golden-section step goes
+    into the larger part, the minimal step tol1 fits because the far end is more than 2*tol1 away when the loop has not ended).
+    [tr'] lists the evaluations most recent first: Brent's own are [ev ++ [bx]]. *)
+Theorem C11_brent_stays_in_bracket (f : R -> R) tol (bk : @brk R) tr xm fm tr' : 0 <= tol ->
+  Rmin (b_ax bk) (b_cx bk) <= b_bx bk <= Rmax (b_ax bk) (b_cx bk) ->
+  brent ROps f tol bk tr = Ok (xm, fm, tr') ->
+  Rmin (b_ax bk) (b_cx bk) <= xm <= Rmax (b_ax bk) (b_cx bk) /\
+  exists ev, tr' = ev ++ b_bx bk :: tr /\ Forall (fun p => Rmin (b_ax bk) (b_cx bk) <= p <= Rmax (b_ax bk) (b_cx bk)) ev.
+Proof. exact (brent_stays_in_bracket f tol bk tr xm fm tr'). Qed.
+Print Assumptions C11_brent_stays_in_bracket.
+
+(** one pass of Brent's loop, every objective: the trial point lies in the current [a,b] and differs from x (no point is evaluated
+    twice in a row), the new [a,b] is contained in the old one and still contains the new x *)
+Theorem C11_brent_step_shrinks_bracket (f : R -> R) tol lo hi s : 0 <= tol -> BC lo hi s ->
+  match brent_step ROps f tol s with
+  | BDone xm fm => xm = s_x s
+  | BNext s' u => BC lo hi s' /\ (s_a s <= u <= s_b s /\ u <> s_x s) /\ s_a s <= s_a s' /\ s_b s' <= s_b s
+  end.
+Proof. exact (brent_step_box f tol lo hi s). Qed.
+Print Assumptions C11_brent_step_shrinks_bracket.
+
+(** Find_Minimum, every objective, distinct starting abscissae: the returned point lies between the outer abscissae of the bracket
+    that Bracket found (bx strictly between them), and the evaluations are Bracket's, then bx again, then points of that interval *)
+Theorem C11_find_minimum_in_bracket (f : R -> R) xl xr tol xm fm tr : xl <> xr -> 0 <= tol ->
+  find_minimum_full ROps f xl xr tol = Ok (xm, fm, tr) ->
+  exists bk tr0 ev, bracket ROps f xl xr = Ok (bk, tr0) /\ Btw bk /\
+    Rmin (b_ax bk) (b_cx bk) <= xm <= Rmax (b_ax bk) (b_cx bk) /\
+    tr = rev tr0 ++ b_bx bk :: ev /\ Forall (fun p => Rmin (b_ax bk) (b_cx bk) <= p <= Rmax (b_ax bk) (b_cx bk)) ev.
+Proof. exact (find_minimum_in_bracket f xl xr tol xm fm tr). Qed.
+Print Assumptions C11_find_minimum_in_bracket.
+(** (non-vacuity: the run Find_Minimum((x-3)^2, 1, 3, 1) returns 3 with the evaluations 1, 3, exc, 3) *)
+Example C11_find_minimum_in_bracket_example : exists bk tr0 ev, bracket ROps fq 1 3 = Ok (bk, tr0) /\ Btw bk /\
+    Rmin (b_ax bk) (b_cx bk) <= 3 <= Rmax (b_ax bk) (b_cx bk) /\
+    [1; 3; exc; 3] = rev tr0 ++ b_bx bk :: ev /\ Forall (fun p => Rmin (b_ax bk) (b_cx bk) <= p <= Rmax (b_ax bk) (b_cx bk)) ev.
+Proof. exact ex_in_bracket. Qed.
+
+(** "Nelder-Mead reflect(-1)/expand(2)/contract(0.5)": over the reals the trial point of amotry is, coordinate by coordinate,
+    c + fac*(p_hi - c) with c = (psum - p_hi)/ndim - the reflection of the vertex through c for fac = -1, the point at twice its
+    distance from c for fac = 2, at half its distance for fac = 0.5 (c is the centroid of the other vertices when psum holds the
+    column sums of an (ndim+1)-vertex simplex) *)
+Theorem C11_amotry_trial_point (s : @nmst R) ndim ihi fac : (0 < ndim)%nat ->
+  amotry_point ROps s ndim ihi fac =
+  map (fun ab => let c := (fst ab - snd ab) / IZR (Z.of_nat ndim) in c + fac * (snd ab - c)) (combine (nm_psum s) (row (nm_p s) ihi)).
+Proof. exact (amotry_point_R s ndim ihi fac). Qed.
+Print Assumptions C11_amotry_trial_point.
+
+(** the default tolerance of Find_Minimum / Find_Maximum (Numerics.hpp: tol = 3e-8) is in the model ([default_tol]); the calls
+    without a tolerance reach every strictly unimodal minimiser / maximiser within 2*(3e-8*|x| + 2^-52) (reals; the run returns) *)
+Theorem C11_find_minimum_default_converges (f : R -> R) xs xl xr xm tr : SUnimodal f xs -> xl <> xr ->
+  find_minimum_default ROps f xl xr = Ok (xm, tr) -> Rabs (xm - xs) <= 2 * (3 / 100000000 * Rabs xm + 1 / 4503599627370496).
+Proof. exact (find_minimum_default_converges f xs xl xr xm tr). Qed.
+Print Assumptions C11_find_minimum_default_converges.
+
+Theorem C11_find_maximum_default_converges (f : R -> R) xs xl xr xm tr : SUnimodalMax f xs -> xl <> xr ->
+  find_maximum_default ROps f xl xr = Ok (xm, tr) -> Rabs (xm - xs) <= 2 * (3 / 100000000 * Rabs xm + 1 / 4503599627370496).
+Proof. exact (find_maximum_default_converges f xs xl xr xm tr). Qed.
+Print Assumptions C11_find_maximum_default_converges.
+
+(** T-tie: Sign(double) and Sign(double,double) (src/Special_Functions.cpp), translated from clang's AST on every run
+    (Gen_C11_Formulas.v), are the terms [sign1] / [sign2] with which Bracket's extrapolation denominator and Brent's minimal steps
+    are modelled, on every instance of the number interface in which the source literals 0.0 and 1.0 are the constants 0 and 1 *)
+Theorem C11_generated_Sign_is_model {T : Type} (Ops : NumOps T) : Lit01 Ops -> forall x, g_Sign Ops x = sign1 Ops x.
+Proof. exact (gen_Sign_is_model Ops). Qed.
+Print Assumptions C11_generated_Sign_is_model.
+
+Theorem C11_generated_Sign2_is_model {T : Type} (Ops : NumOps T) : Lit01 Ops -> forall x y, g_Sign2 Ops x y = sign2 Ops x y.
+Proof. exact (gen_Sign2_is_model Ops). Qed.
+Print Assumptions C11_generated_Sign2_is_model.
+
+Theorem C11_literals_reals : Lit01 ROps.
+Proof. exact ROps_Lit01. Qed.
+Print Assumptions C11_literals_reals.
+
+(** Bracket's parabolic extrapolation point, written with the generated Sign(x,y) *)
+Theorem C11_bracket_u_uses_generated_Sign {T : Type} (Ops : NumOps T) : Lit01 Ops -> forall ax bx cx fa fb fc,
+  bracket_u Ops (mkBrk ax bx cx fa fb fc) =
+  let r := nmul Ops (nsub Ops bx ax) (nsub Ops fb fc) in
+  let q := nmul Ops (nsub Ops bx cx) (nsub Ops fb fa) in
+  nsub Ops bx (ndiv Ops (nsub Ops (nmul Ops (nsub Ops bx cx) q) (nmul Ops (nsub Ops bx ax) r))
+                        (nmul Ops (two Ops) (g_Sign2 Ops (nmax Ops (nabs Ops (nsub Ops q r)) (tiny20 Ops)) (nsub Ops q r)))).
+Proof. exact (bracket_u_with_generated_Sign Ops). Qed.
+Print Assumptions C11_bracket_u_uses_generated_Sign.
+
+(** psum holds the column sums of the simplex (reals): the state minimize(pp, func) enters the loop with satisfies the invariant
+    [PSI ndim s] = "all rows have ndim entries and psum = get_psum(simplex)", and every pass of the loop - reflection, expansion,
+    contraction with the incremental update psum[j] += ptry[j] - p[ihi][j], and the shrink with its recomputation - keeps it *)
+Theorem C11_psum_initial ndim (pp : list (list R)) y nf tr : Rect ndim pp -> PSI ndim (mkNM pp y (get_psum ROps pp ndim) nf tr).
+Proof. exact (initial_psi ndim pp y nf tr). Qed.
+Print Assumptions C11_psum_initial.
+
+Theorem C11_psum_is_column_sum_in_every_pass (f : list R -> R) ftol ndim s :
+  (2 <= length (nm_y s))%nat -> length (nm_p s) = length (nm_y s) -> PSI ndim s ->
+  match nm_iter ROps f ftol ndim s with NNext s' => PSI ndim s' | _ => True end.
+Proof. exact (nm_iter_psi f ftol ndim s). Qed.
+Print Assumptions C11_psum_is_column_sum_in_every_pass.
+
+(** hence the trial points are the reflection (fac = -1), the expansion (2) and the contraction (0.5) of the worst vertex about
+    c = (sum of the OTHER vertices)/ndim, their centroid for a simplex of ndim + 1 vertices: coordinate j of the trial point is
+    c_j + fac*(p[ihi][j] - c_j) *)
+Theorem C11_amotry_reflects_about_centroid (s : @nmst R) ndim ihi fac : (0 < ndim)%nat -> PSI ndim s -> (ihi < length (nm_p s))%nat ->
+  amotry_point ROps s ndim ihi fac =
+  map (fun j => let c := colsum (updv (nm_p s) ihi []) j / IZR (Z.of_nat ndim) in c + fac * (nth j (nth ihi (nm_p s) []) 0 - c)) (seq 0 ndim).
+Proof. exact (amotry_point_centroid s ndim ihi fac). Qed.
+Print Assumptions C11_amotry_reflects_about_centroid.
+(** (non-vacuity: the triangle (0,0), (1,0), (0,1); reflecting vertex 0 gives (1,1)) *)
+Example C11_reflection_example : let s := mkNM [[0; 0]; [1; 0]; [0; 1]] [0; 1; 1] (get_psum ROps [[0; 0]; [1; 0]; [0; 1]] 2) 0%Z [] in
+  PSI 2 s /\ amotry_point ROps s 2 0 (-1) = [1; 1].
+Proof. exact ex_reflect. Qed.
